@@ -54,9 +54,9 @@ func (t *LastAccessTime) Movable() bool {
 
 // Serialize converts t to bytes.
 func (t *LastAccessTime) Serialize() ([]byte, error) {
-	b := make([]byte, 8)
-	binary.PutVarint(b, t.Time.Unix())
-	return b, nil
+	b := make([]byte, binary.MaxVarintLen64)
+	n := binary.PutVarint(b, t.Time.Unix())
+	return b[:n], nil
 }
 
 // Deserialize loads b into t.
